@@ -36,6 +36,22 @@ fn main() {
             let only = replay.as_ref().and_then(|r| r.get("case")).and_then(|c| c.as_u64()).or(if a.has("case") { Some(a.u64("case", 0)) } else { None });
             e1::run(seed, shard, nshards, a.u64("cases", if thorough { 600 } else { 60 }), &bias, only, &mut rep);
         }
+        "e2" => {
+            let only = replay.as_ref().map(|r| {
+                let name = r["scenario"].as_str().unwrap_or("").to_string();
+                let m = &r["mode"];
+                let mode = if let Some(p) = m.get("pct") {
+                    e2::Mode::Pct { seed: p[0].as_u64().unwrap(), preemptions: p[1].as_u64().unwrap() as usize }
+                } else if let Some(f) = m.get("free") {
+                    e2::Mode::Free { seed: f.as_u64().unwrap() }
+                } else {
+                    e2::Mode::Script(m["script"].as_array().map(|a| a.iter().map(|x| x.as_str().unwrap().to_string()).collect()).unwrap_or_default())
+                };
+                (name, mode)
+            });
+            let shard = replay.as_ref().and_then(|r| r.get("shard")).and_then(|s| s.as_u64()).unwrap_or(shard);
+            e2::run(seed, shard, nshards, a.u64("schedules", if thorough { 4000 } else { 250 }), a.u64("free", if thorough { 200 } else { 20 }), only, &mut rep);
+        }
         "c07f" => {
             pure_c07f::run(&mut rep);
         }
